@@ -36,6 +36,9 @@ NOTES = [
     "ShareCrawler.__init__ (twisted service set-up, state file) replaced by: self.state = {}; self.add_initial_state(); "
     "_HistorySerializer replaced by an in-memory object",
     "cancel secrets of the leases of one share are pairwise distinct tokens",
+    "config_policy: tahoe.cfg is a concrete text (chosen by symbolic selectors) parsed by the real allmydata.node._Config/configparser with CrossHair "
+    "tracing switched off; client.parse_duration / parse_date return symbolic integers; client.StorageServer is a subclass of the real StorageServer "
+    "without _clean_incomplete/add_bucket_counter/setServiceParent; storage.server.fileutil.make_dirs and log are no-ops",
 ]
 hlib.encoded(expirer.LeaseCheckingCrawler.__init__, expirer.LeaseCheckingCrawler.process_share,
              expirer.LeaseCheckingCrawler.process_bucket,
@@ -102,6 +105,8 @@ class _FakeStatOS(object):
 
 
 class MemImmutable(imm_mod.ShareFile):
+    bad = None
+
     def __init__(self, leases, size):
         self.home = "share-imm"
         self.leases = list(leases)
@@ -124,7 +129,7 @@ class MemImmutable(imm_mod.ShareFile):
         for i in range(num_leases):
             new.append(self._pending[i] if i in self._pending else self.leases[i])
         if self._pending_n != num_leases:
-            raise hlib.HarnessError("lease count and truncation disagree")
+            self.bad = "lease count written to the header and truncation point disagree"
         self.leases = new
         self._pending = {}
 
@@ -134,7 +139,7 @@ class MemImmutable(imm_mod.ShareFile):
     def cancel_lease(self, cancel_secret):
         self.cancel_calls.append(cancel_secret)
         if self.deleted:
-            raise hlib.HarnessError("cancel_lease on a deleted share")
+            self.bad = "cancel_lease called on a share that was already unlinked"
         saved = (imm_mod.__dict__.get("open"), imm_mod.os)
         imm_mod.open = _fake_open
         imm_mod.os = _FakeStatOS(self.size)
@@ -149,6 +154,8 @@ class MemImmutable(imm_mod.ShareFile):
 
 
 class MemMutable(mut_mod.MutableShareFile):
+    bad = None
+
     def __init__(self, leases, size):
         self.home = "share-mut"
         self.slots = list(leases)          # blank slots hold owner_num == 0 records
@@ -177,7 +184,7 @@ class MemMutable(mut_mod.MutableShareFile):
     def cancel_lease(self, cancel_secret):
         self.cancel_calls.append(cancel_secret)
         if self.deleted:
-            raise hlib.HarnessError("cancel_lease on a deleted share")
+            self.bad = "cancel_lease called on a share that was already unlinked"
         saved = (mut_mod.__dict__.get("open"), mut_mod.os)
         mut_mod.open = _fake_open
         mut_mod.os = _FakeStatOS(self.size)
@@ -261,7 +268,7 @@ def h_process_share(n: int, now: int, d1: int, d2: int, d3: int, e1: int, e2: in
                     age_mode: bool, has_override: bool, override: int, cutoff: int,
                     enabled: bool, mutable: bool, exp_imm: bool, exp_mut: bool, sz: int, blk: int) -> bool:
     """
-    pre: 0 <= n <= B.get("n_max", 3)
+    pre: B.get("n_min", 0) <= n <= B.get("n_max", 3)
     pre: e1 >= D31 and e2 >= D31 and e3 >= D31
     pre: now >= 0 and d1 >= 0 and d2 >= 0 and d3 >= 0
     pre: B.get("policy") is None or (age_mode, has_override) == [(True, False), (True, True), (False, False)][B["policy"]]
@@ -297,6 +304,8 @@ def h_process_share(n: int, now: int, d1: int, d2: int, d3: int, e1: int, e2: in
         wks = c.process_share("share-file")
     finally:
         expirer.get_share_file = saved
+    if sf.bad:
+        return sf.bad
     t_first = seq[0]
     t_last = seq[min(CLOCK.reads, len(seq)) - 1] if CLOCK.reads > 0 else seq[0]
     if CLOCK.reads != 1 + n:
@@ -387,4 +396,289 @@ def h_process_share(n: int, now: int, d1: int, d2: int, d3: int, e1: int, e2: in
         return "original-* counters"
     if c.state["cycle-to-date"]["leases-per-share-histogram"] != {str(n): 1}:
         return "leases-per-share histogram"
+    return True
+
+
+# ---- process_bucket: a bucket is reported/recovered iff all of its shares are --------------------
+
+class _FakeOS(object):
+    """stands in for `os` in storage.expirer during process_bucket"""
+    import os as _real
+    path = _real.path
+
+    def __init__(self, names):
+        self.names = names
+        self.listed = []
+
+    def listdir(self, d):
+        self.listed.append(d)
+        return list(self.names)
+
+
+class _TwLog(object):
+    def __init__(self):
+        self.n = 0
+
+    def msg(self, *a, **kw):
+        self.n += 1
+
+    def err(self, *a, **kw):
+        self.n += 1
+
+
+def h_process_bucket(now: int, d1: int, d2: int, d3: int, e1: int, e2: int,
+                     age_mode: bool, has_override: bool, override: int, cutoff: int,
+                     enabled: bool, mutable: bool, selected: bool, corrupt2: bool, sz: int, blk: int, dblk: int) -> bool:
+    """
+    pre: e1 >= D31 and e2 >= D31
+    pre: now >= 0 and d1 >= 0 and d2 >= 0 and d3 >= 0
+    pre: sz >= 0 and blk >= 0 and dblk >= 0
+    pre: B.get("policy") is None or (age_mode, has_override) == [(True, False), (True, True), (False, False)][B["policy"]]
+    post: _ == True
+    """
+    seq = [now, now + d1, now + d1 + d2, now + d1 + d2 + d3]
+    CLOCK.set(seq)
+    ovr = override if has_override else None
+    sharetype = "mutable" if mutable else "immutable"
+    other = "immutable" if mutable else "mutable"
+    sharetypes = (sharetype, other) if selected else (other,)
+    ages = []
+    c = _mk_crawler(enabled, age_mode, ovr, cutoff, sharetypes, None, ages)
+    bucketdir = "shares/aa/aabbb"
+    stats = {bucketdir: NS(st_size=0, st_blocks=dblk)}
+    c.stat = lambda fn: stats.get(fn) or NS(st_size=sz, st_blocks=blk)
+    shares = {"shares/aa/aabbb/0": _mk_share(mutable, [e1], sz), "shares/aa/aabbb/7": _mk_share(mutable, [e2], sz)}
+    opened = []
+
+    def get_share_file(fn):
+        opened.append(fn)
+        if fn not in shares:
+            raise hlib.HarnessError("process_bucket opened %r" % (fn,))
+        if corrupt2 and fn.endswith("/7"):
+            raise expirer.UnknownImmutableContainerVersionError(fn, 99)
+        return shares[fn]
+    fos = _FakeOS(["0", "7", "README"])
+    saved = (expirer.get_share_file, expirer.os, expirer.twlog)
+    expirer.get_share_file = get_share_file
+    expirer.os = fos
+    expirer.twlog = _TwLog()
+    try:
+        c.process_bucket(3, "aa", "shares/aa", "aabbb")
+    finally:
+        expirer.get_share_file, expirer.os, expirer.twlog = saved
+    if fos.listed != [bucketdir] or opened != ["shares/aa/aabbb/0", "shares/aa/aabbb/7"]:
+        return "did not examine exactly the numeric entries of the bucket directory"
+    # share 0 reads clock index 0 (now) and 1 (age); share 7 (unless corrupt) index 2 and 3
+    windows = [(seq[0], seq[1]), (seq[2], seq[3])]
+    exps = [e1, e2]
+    names = ["shares/aa/aabbb/0", "shares/aa/aabbb/7"]
+    all_deleted = True
+    all_must = True
+    for j in range(2):
+        sf = shares[names[j]]
+        if sf.bad:
+            return sf.bad
+        if j == 1 and corrupt2:
+            if sf.cancel_calls or sf.deleted:
+                return "corrupt share touched"
+            all_deleted = False
+            all_must = False
+            continue
+        must, may = _must_may_expire(age_mode, ovr, cutoff, exps[j], windows[j][0], windows[j][1])
+        if sf.deleted and not (enabled and selected and may):
+            return "share deleted although not expired / disabled / type not selected"
+        if enabled and selected and must and not sf.deleted:
+            return "expired share not deleted"
+        if sf.deleted != (len(sf.leases) == 0):
+            return "share deleted iff no lease left"
+        all_deleted = all_deleted and sf.deleted
+        all_must = all_must and must
+    st = c.state["cycle-to-date"]
+    sr = st["space-recovered"]
+    if corrupt2:
+        if st["corrupt-shares"] != [["aabbb", 7]]:
+            return "corrupt share not recorded"
+    elif st["corrupt-shares"] != []:
+        return "spurious corrupt-share record"
+    if sr["examined-buckets"] != 1:
+        return "examined-buckets"
+    if sr["examined-shares"] != (1 if corrupt2 else 2):
+        return "examined-shares"
+    # the bucket counts as actually recovered iff every share in it was deleted
+    if sr["actual-buckets"] != (1 if all_deleted else 0):
+        return "actual-buckets must count the bucket iff all its shares were deleted"
+    if sr["actual-shares"] != sum(1 for n in names if shares[n].deleted):
+        return "actual-shares must equal the number of deleted shares"
+    if all_deleted and sr["actual-diskbytes"] != 2 * blk * 512 + dblk * 512:
+        return "actual-diskbytes of a fully recovered bucket"
+    if selected and all_must and sr["configured-buckets"] != 1:
+        return "configured-buckets: bucket with only expired shares not counted"
+    if sr["configured-buckets"] == 1 and not enabled and (shares[names[0]].deleted or shares[names[1]].deleted):
+        return "deleted while disabled"
+    if enabled and (sr["configured-buckets"] == 1) != all_deleted:
+        return "configured-buckets and deletions disagree while expiration is enabled"
+    return True
+
+
+# ---- configuration -> policy: client.py expire.* options reach the crawler with their documented meaning ----------
+
+def _load_client_side():
+    """imported lazily: allmydata.client pulls in most of the code base"""
+    from allmydata import client as client_mod, node as node_mod
+    from allmydata.storage import server as server_mod
+    return client_mod, node_mod, server_mod
+
+
+class _NullLog(object):
+    UNUSUAL = 23
+
+    def msg(self, *a, **kw):
+        return 0
+
+    def err(self, *a, **kw):
+        return 0
+
+
+class _UntracedConfig(object):
+    """the real allmydata.node._Config (configparser underneath) on a concrete tahoe.cfg text; its methods run with CrossHair's
+    tracing switched off (arguments and results are concrete strings; tracing configparser costs ~0.3 s per path)"""
+    _cache = {}
+
+    def __init__(self, client_mod, text):
+        from crosshair.tracers import NoTracing
+        self._nt = NoTracing
+        with NoTracing():
+            text = str(text)
+            if text not in self._cache:
+                self._cache[text] = client_mod.config_from_string("/nonexistent/basedir", "client.port", text)
+            self._cfg = self._cache[text]
+
+    def get_config(self, *a, **kw):
+        with self._nt():
+            return self._cfg.get_config(*a, **kw)
+
+    def get_config_path(self, *a):
+        with self._nt():
+            return self._cfg.get_config_path(*a)
+
+
+_BOOL = {1: "true", 2: "false"}
+_MODES = {1: "age", 2: "cutoff-date", 3: "sometimes"}
+
+
+def h_config_policy(en: int, md: int, ov: bool, cd: bool, imm: int, mut: int, override: int, cutoff: int,
+                    now: int, d1: int, e1: int, mutable: bool) -> bool:
+    """
+    pre: 0 <= en <= 2 and 0 <= md <= 3 and 0 <= imm <= 2 and 0 <= mut <= 2
+    pre: B.get("md") is None or md == B["md"]
+    pre: B.get("explicit_true", True) or (imm != 1 and mut != 1)
+    pre: e1 >= D31 and now >= 0 and d1 >= 0
+    post: _ == True
+    """
+    client_mod, node_mod, server_mod = _load_client_side()
+    lines = ["[storage]", "enabled = true"]
+    if en:
+        lines.append("expire.enabled = " + _BOOL[en])
+    if md:
+        lines.append("expire.mode = " + _MODES[md])
+    if ov:
+        lines.append("expire.override_lease_duration = 12 days")
+    if cd:
+        lines.append("expire.cutoff_date = 2009-01-16")
+    if imm:
+        lines.append("expire.immutable = " + _BOOL[imm])
+    if mut:
+        lines.append("expire.mutable = " + _BOOL[mut])
+    cfg = _UntracedConfig(client_mod, "\n".join(lines) + "\n")
+    parsed = []
+
+    def parse_duration(s):
+        parsed.append(("duration", s))
+        return override
+
+    def parse_date(s):
+        parsed.append(("date", s))
+        return cutoff
+
+    class Crawler(expirer.LeaseCheckingCrawler):
+        def setServiceParent(self, parent):
+            self.harness_parent = parent
+
+    class SS(server_mod.StorageServer):
+        LeaseCheckerClass = Crawler
+
+        def _clean_incomplete(self):
+            pass
+
+        def add_bucket_counter(self):
+            pass
+
+        def setServiceParent(self, parent):
+            self.harness_parent = parent
+
+    def no_service(name):
+        raise KeyError(name)
+    fake = NS(config=cfg, get_config=cfg.get_config, getServiceNamed=no_service, STOREDIR="storage",
+              nodeid=b"n" * 20, stats_provider=None)
+    saved = (client_mod.StorageServer, client_mod.parse_duration, client_mod.parse_date, server_mod.fileutil, server_mod.log)
+    client_mod.StorageServer = SS
+    client_mod.parse_duration = parse_duration
+    client_mod.parse_date = parse_date
+    server_mod.fileutil = NS(make_dirs=lambda d, mode=0o777: None)
+    server_mod.log = _NullLog()
+    err = None
+    ss = None
+    try:
+        try:
+            ss = client_mod._Client.get_anonymous_storage_server(fake)
+        except (node_mod.MissingConfigEntry, ValueError) as e:
+            err = e
+    finally:
+        (client_mod.StorageServer, client_mod.parse_duration, client_mod.parse_date, server_mod.fileutil, server_mod.log) = saved
+    # --- what the documentation says about these options (docs/garbage-collection.rst) ---
+    enabled = (en == 1)                       # default False
+    if md == 0:
+        mode = None if enabled else "age"     # "expire.mode = (string, required if expiration enabled)"
+    else:
+        mode = _MODES[md]
+    must_fail = (mode is None) or (mode not in ("age", "cutoff-date")) or (mode == "cutoff-date" and not cd)
+    if must_fail:
+        if err is None:
+            return "configuration without a usable expire.mode / cutoff date was accepted"
+        return True
+    if err is not None:
+        return "valid configuration rejected"
+    c = ss.lease_checker
+    if ss.harness_parent is not fake or c.harness_parent is not ss:
+        return "storage server / lease checker not attached to their parents"
+    age_mode = (mode == "age")
+    ovr = override if (ov and age_mode) else None
+    want_types = tuple((["immutable"] if imm != 2 else []) + (["mutable"] if mut != 2 else []))
+    if tuple(c.sharetypes_to_expire) != want_types:
+        return "share types to expire differ from expire.immutable / expire.mutable"
+    if ov and ("duration", "12 days") not in parsed:
+        return "override duration string not parsed"
+    if mode == "cutoff-date" and ("date", "2009-01-16") not in parsed:
+        return "cutoff date string not parsed"
+    # one share with one lease through process_share
+    seq = [now, now + d1]
+    CLOCK.set(seq)
+    ages = []
+    c.stat = lambda fn: NS(st_size=10, st_blocks=1)
+    c.add_lease_age_to_histogram = lambda age: ages.append(age)
+    sf = _mk_share(mutable, [e1], 10)
+    saved_g = expirer.get_share_file
+    expirer.get_share_file = lambda fn: sf
+    try:
+        c.process_share("share-file")
+    finally:
+        expirer.get_share_file = saved_g
+    if sf.bad:
+        return sf.bad
+    selected = ("mutable" if mutable else "immutable") in want_types
+    must, may = _must_may_expire(age_mode, ovr, cutoff, e1, seq[0], seq[1])
+    if sf.deleted and not (enabled and selected and may):
+        return "share deleted although expire.enabled is off / type not selected / lease not expired under the configured policy"
+    if enabled and selected and must and not sf.deleted:
+        return "expired share survived although expiration is enabled for its type"
     return True
